@@ -141,6 +141,9 @@ def check_life(pid, tier, seed):
     thorough = tier == "thorough"
     # 1+2. design verdict (TLC on the bounded instances) and schedules (TLC edges + random) for the real code
     jobs, sstats, mstats = life.build_jobs(pid, tier, seed, wd)
+    for lname in spec.get("live", []):
+        lg, ld = life.tlc_live(lname, wd)
+        mstats["liveness:" + lname] = {"generated": lg, "distinct": ld, "temporal_property": "Answered (held ~> answered) under weak fairness"}
     gen = sum(x["generated"] for x in mstats.values()); dist = sum(x["distinct"] for x in mstats.values())
     files = run.run_harness(jobs, wd + "/h")
     # 3. implementation verdict: Observer on every recorded trace
